@@ -42,6 +42,9 @@ VARIANTS = [
     {"model_key": "hertz_para", "optimal_fit_num_samples": 33},
     {"model_key": "hertz_para", "range_x": [-1.0, 1.0]},
     {"model_key": "hertz_para", "method_kws": {"max_nfev": 400}},
+    # open-ended interval
+    {"model_key": "hertz_para", "range_x": [-float("inf"), 1e-6]},
+    {"model_key": "hertz_cone", "range_x": [-5e-7, float("inf")]},
 ]
 TWINS_OF_0 = [5, 11, 12, 13]
 PIPES = [
@@ -188,8 +191,14 @@ class World:
                 grp = IndentationGroup(self.files[cc["file"]])
                 idnt = grp[cc["enum"] % len(grp)]
                 steps, opts = PIPES[cc.get("pipe", 0)]
-                idnt.apply_preprocessing(copy.deepcopy(steps),
-                                         copy.deepcopy(opts))
+                try:
+                    idnt.apply_preprocessing(copy.deepcopy(steps),
+                                             copy.deepcopy(opts))
+                except _caught():
+                    # e.g. height smoothing that does not converge on this
+                    # curve: no fitted curve to store
+                    self.fitted[key] = None
+                    return None
                 var = cc["variants"][vi % len(cc["variants"])]
                 kw = copy.deepcopy(VARIANTS[var])
                 for nk in kw.pop("__np__", []):
